@@ -148,7 +148,8 @@ DeletingOnlyFinalizer(p, e) ==
   (MetaWrite(e) /\ C(p).ex /\ C(p).del) => (C(p).fin /\ (~C(e).ex \/ (~C(e).fin /\ Core(C(e)) = Core(C(p)) /\ C(e).ref = C(p).ref)))
 LiveNoDelete(e) == (IsCall(e) /\ e.abs = "delete:xr") => SawDeleting(e)
 \* every status write of the deletion branch says Ready=False/Deleting (the branch starts with SetConditions(Deleting()));
-\* named separately: the status write that follows the removal of our finalizer in the same reconcile
+\* named separately: the status write that follows the removal of our finalizer in the same reconcile (D25, repaired by
+\* 835e9e0: RemoveFinalizer's Update replaces the in-memory claim, the condition has to be set again)
 InBranch(e) == ~(C(e).synced = "False:ReconcileError" /\ C(e).step \in {"getxr", "unbound", "upgrade"})
 RemovedFin(e) == e.seen.fin /\ C(e).ex /\ ~C(e).fin
 DeletingCondition(e) == (ExitStatus(e) /\ SawDeleting(e) /\ C(e).ex /\ InBranch(e) /\ ~RemovedFin(e)) => C(e).ready = "False:Deleting"
@@ -198,7 +199,7 @@ RepairUnbound(e) == (Clean(e) /\ ~C(e).paused /\ Other(e)) => (C(e).synced = "Fa
 RepairDeleted(e) ==
   (Clean(e) /\ ~C(e).paused /\ ~Other(e) /\ C(e).del) =>
      IF C(e).cdp = "Foreground" /\ F(e) # {} THEN \A x \in F(e) : x.del
-     ELSE ~C(e).fin /\ (\A x \in F(e) : x.del) /\ C(e).synced = "True:ReconcileSuccess"
+     ELSE ~C(e).fin /\ (\A x \in F(e) : x.del) /\ C(e).synced = "True:ReconcileSuccess" /\ C(e).ready = "False:Deleting"
 RepairLive(e) ==
   (Clean(e) /\ ~C(e).paused /\ ~Other(e) /\ ~C(e).del) =>
      /\ C(e).fin /\ C(e).ref # "none" /\ C(e).synced = "True:ReconcileSuccess"
